@@ -41,6 +41,9 @@ Order ==
   /\ \A k \in 1..N : (c <= 0 /\ PreCmp11(b, US[k]) <= 0) => PreCmp11(a, US[k]) <= 0
   \* a longer identifier list ranks above its own prefix
   /\ (a # <<>> /\ Len(b) > Len(a) + 1 /\ SubSeq(b, 1, Len(a) + 1) = a \o <<Dot>>) => c = -1
+  \* cancellation: a common prefix of whole identifiers never changes the order (this law lets the
+  \* trace specification judge comparisons of inputs far too long to evaluate: Trace, "giant" events)
+  /\ (a # <<>> /\ b # <<>>) => \A p \in {<<97, Dot>>, <<49, Dot>>, <<97, Dot, 97, Dot>>, <<48, Dot, 66, 45, Dot>>} : PreCmp11(p \o a, p \o b) = c
   \* single identifiers: numeric below alphanumeric; numeric numerically; alphanumeric in ASCII order
   /\ (a # <<>> /\ b # <<>> /\ Dot \notin SeqRange(a) /\ Dot \notin SeqRange(b)) =>
         /\ (AllDigits(a) /\ ~AllDigits(b)) => c = -1
